@@ -497,21 +497,34 @@ XPathEvaluator::evaluate(
 
     m_executionContext->setDOMSupport(&domSupport);
 
+    // Break the connections we set when we leave, also if the
+    // evaluation throws an exception.  The support objects belong
+    // to the caller, and may not exist any longer the next time.
+    struct BreakConnections
+    {
+        BreakConnections(XPathExecutionContextDefault&  theExecutionContext) :
+            m_executionContext(theExecutionContext)
+        {
+        }
+
+        ~BreakConnections()
+        {
+            m_executionContext.setXPathEnvSupport(0);
+
+            m_executionContext.setXObjectFactory(0);
+
+            m_executionContext.setDOMSupport(0);
+        }
+
+        XPathExecutionContextDefault&   m_executionContext;
+
+    } const     theGuard(*m_executionContext.get());
+
     // OK, evaluate the expression...
-    const XObjectPtr    theResult(
-        xpath.execute(
-            contextNode,
-            prefixResolver,
-            *m_executionContext.get()));
-
-    // Break the connectons we set...
-    m_executionContext->setXPathEnvSupport(0);
-
-    m_executionContext->setXObjectFactory(0);
-
-    m_executionContext->setDOMSupport(0);
-
-    return theResult;
+    return xpath.execute(
+                contextNode,
+                prefixResolver,
+                *m_executionContext.get());
 }
 
 
